@@ -197,6 +197,17 @@ func main() {
 				od, _ := props.Execute(p, full, *tier, repo, nil, true)
 				st.Samples = append(st.Samples, fmt.Sprintf("campaign=%s run=%d: %s", camp.Name, idx, od.Desc))
 			}
+			if camp.Fresh {
+				// one run per process: hand the rest of this campaign to a fresh worker
+				b, _ := json.Marshal(st)
+				emit("S %s", b)
+				flushDigests(*digests, distinct, scheds)
+				if rdw != nil {
+					rdw.Flush()
+				}
+				emit("F %s %d", camp.Name, idx)
+				os.Exit(0)
+			}
 			sinceGC++
 			if sinceGC >= 256 {
 				sinceGC = 0
@@ -207,35 +218,7 @@ func main() {
 			st.Complete[camp.Name] = complete
 		}
 	}
-	if *digests != "" {
-		df, err := os.OpenFile(*digests, os.O_CREATE|os.O_WRONLY|os.O_TRUNC, 0o644)
-		if err == nil {
-			w := bufio.NewWriter(df)
-			var b [8]byte
-			for d := range distinct {
-				for i := 0; i < 8; i++ {
-					b[i] = byte(d >> (8 * i))
-				}
-				w.Write(b[:])
-			}
-			w.Flush()
-			df.Close()
-		}
-		if len(scheds) > 0 {
-			if sf, err := os.Create(*digests + ".sched"); err == nil {
-				w := bufio.NewWriter(sf)
-				var b [8]byte
-				for d := range scheds {
-					for i := 0; i < 8; i++ {
-						b[i] = byte(d >> (8 * i))
-					}
-					w.Write(b[:])
-				}
-				w.Flush()
-				sf.Close()
-			}
-		}
-	}
+	flushDigests(*digests, distinct, scheds)
 	b, _ := json.Marshal(st)
 	emit("S %s", b)
 	emit("D done")
@@ -423,4 +406,30 @@ func solo(replay, caseJSON, minim, outPath, tier, repo string, minBudget int, pl
 	b, _ := json.Marshal(soloOut{o, traces})
 	emit("O %s", b)
 	emit("D done")
+}
+
+func flushDigests(path string, distinct, scheds map[uint64]struct{}) {
+	if path == "" {
+		return
+	}
+	write := func(p string, set map[uint64]struct{}) {
+		f, err := os.Create(p)
+		if err != nil {
+			return
+		}
+		w := bufio.NewWriter(f)
+		var b [8]byte
+		for d := range set {
+			for i := 0; i < 8; i++ {
+				b[i] = byte(d >> (8 * i))
+			}
+			w.Write(b[:])
+		}
+		w.Flush()
+		f.Close()
+	}
+	write(path, distinct)
+	if len(scheds) > 0 {
+		write(path+".sched", scheds)
+	}
 }
